@@ -3,7 +3,8 @@
 (* LB = 4 with 2 limbs and LB = 2 with 4 limbs (same operator text as the   *)
 (* 16-bit-limb instance used by the ISA specification).                     *)
 EXTENDS Limbs, TLC
-CONSTANT N                       \* limbs per word; N * LB = 8
+CONSTANTS N,                     \* limbs per word; N * LB = 8
+          Stride                 \* 1 = every 8-bit value; k > 1 = multiples of k plus the boundary values (quick tier)
 VARIABLES x, y
 W == N * LB
 M == 2^W                         \* 256
@@ -13,8 +14,9 @@ UPat(s) == (s + 2 * M) % M
 
 \* 256 initial states, each with 256 successors (so that the workers share the load);
 \* operators that do not depend on y are checked on the states with y = 0 only.
-Init == x \in 0..(M - 1) /\ y = 0
-Next == y = 0 /\ y' \in 1..(M - 1) /\ UNCHANGED x
+Sel == {v \in 0..(M - 1) : v % Stride = 0 \/ v \in {1, 2, M \div 2 - 1, M \div 2, M \div 2 + 1, M - 2, M - 1, 15, 16, 17}}
+Init == x \in Sel /\ y = 0
+Next == y = 0 /\ y' \in Sel \ {0} /\ UNCHANGED x
 Spec == Init /\ [][Next]_<<x, y>>
 KS == 0..(W - 1)
 
